@@ -28,6 +28,7 @@ import (
 
 // ---- fake connection ----
 type vtConn struct {
+	failWrite bool
 	mu       sync.Mutex
 	rd       []byte
 	chunk    int
@@ -57,7 +58,7 @@ func (c *vtConn) Read(p []byte) (int, error) {
 func (c *vtConn) Write(p []byte) (int, error) {
 	c.mu.Lock()
 	defer c.mu.Unlock()
-	if c.closed {
+	if c.closed || c.failWrite {
 		return 0, io.ErrClosedPipe
 	}
 	return c.wr.Write(p)
@@ -210,14 +211,16 @@ type vtFeed struct {
 	reply                     []byte
 }
 
-func (h *vtNode) feed(stream []byte, chunk int) vtFeed {
+func (h *vtNode) feed(stream []byte, chunk int) vtFeed { return h.feedW(stream, chunk, false) }
+
+func (h *vtNode) feedW(stream []byte, chunk int, failWrite bool) vtFeed {
 	before := h.snapshot()
 	d0 := h.del.calls()
 	mg0 := 0
 	if h.mg != nil {
 		mg0 = h.mg.calls
 	}
-	conn := &vtConn{rd: append([]byte(nil), stream...), chunk: chunk}
+	conn := &vtConn{rd: append([]byte(nil), stream...), chunk: chunk, failWrite: failWrite}
 	var f vtFeed
 	func() {
 		defer func() {
@@ -433,6 +436,13 @@ func vtRound(r *vfRng, st *vfStats, allCuts bool) []vfCase {
 			}
 		}
 	}
+	// ---- the reply cannot be delivered (the initiator is gone): the exchange failed for the
+	//      initiator, so the host must not have merged its state either ----
+	{
+		h := vtMake(hc, []string{"ha"}, []byte("H-state"), nil, false)
+		f := h.feedW(req, 0, true)
+		out = append(out, vtFeedCase(8, hc, ic, req, f, false, true, st))
+	}
 	// ---- cut at every byte offset (request direction) ----
 	for _, n := range vtOffsets(r, len(req), allCuts) {
 		f := host.feed(req[:n], 0)
@@ -495,7 +505,14 @@ func vtRound(r *vfRng, st *vfStats, allCuts bool) []vfCase {
 		out = append(out, vtFeedCase(6, hc, ic, big, host.feed(big, 0), false, true, st))
 	}
 	// ---- user message, also the empty one ----
-	for _, payload := range [][]byte{{}, []byte("x"), bytes.Repeat([]byte{0xab}, 9000)} {
+	payloads := [][]byte{{}, []byte("x"), bytes.Repeat([]byte{0xab}, 9000)}
+	if len(keys) > 0 {
+		// every residue of the plaintext length modulo the cipher block size
+		for n := 2; n <= 34; n++ {
+			payloads = append(payloads, bytes.Repeat([]byte{byte(n)}, n))
+		}
+	}
+	for _, payload := range payloads {
 		ureq := capture(func() { ini.m.sendUserMsg(addr, payload) })
 		if len(ureq) <= len(lh) {
 			continue
@@ -537,6 +554,22 @@ func vtRound(r *vfRng, st *vfStats, allCuts bool) []vfCase {
 	pini.tr.next = func() net.Conn { return rec }
 	pini.m.pushPullNode(addr, false)
 	preqPlain := append([]byte(nil), rec.wr.Bytes()...)
+	for _, big := range [][]byte{bytes.Repeat([]byte{'B'}, 5000), bytes.Repeat([]byte{'C'}, 20000)} {
+		bic := pic
+		bic.compress = false
+		bini := vtMake(bic, []string{"ia"}, big, nil, false)
+		brec := &vtConn{}
+		bini.tr.next = func() net.Conn { return brec }
+		bini.m.pushPullNode(addr, false)
+		breq := append([]byte(nil), brec.wr.Bytes()...)
+		bhc := pc
+		bhc.compress = false
+		bh := vtMake(bhc, []string{"ha"}, nil, nil, false)
+		f := bh.feed(breq, 0)
+		eff := bh.lists("ia") && len(bh.del.merged) == 1 && bytes.Equal(bh.del.merged[0], big)
+		fc := vtFeedCase(1, bhc, bic, breq[:vfMin(len(breq), 300)], f, eff, true, st)
+		out = append(out, fc)
+	}
 	for k := 0; k < 12 && len(preqPlain) > len(lh)+1; k++ {
 		m := append([]byte(nil), preqPlain...)
 		m[len(lh)+r.n(len(m)-len(lh))] = byte(r.n(256))
